@@ -477,6 +477,36 @@ let ch_extl hist nameh goth =
   let got = dec_hex_str goth in
   if got <> expected then propfail "C14" (Printf.sprintf "Lookup(%S) after the Extend calls: expected %s got %s history=%s" name expected got hist)
 
+(* ---- line-oriented formats (C13) ---- *)
+let comma = n_of_int 44 and tab = n_of_int 9
+(* c13 <hex hdr> <limit> <Csv Tsv NdJSON verdicts> <head type> <kind> <end of line 2> *)
+let ch_c13 hex lim dets head kind end2s =
+  let raw = bytes_of_hex hex in
+  let l = n_of_int (int_of_string lim) in
+  let cmp name sepc i = match sv_model sepc raw l with
+    | Some m -> if m <> (dets.[i] = '1') then mismatch "csv" (Printf.sprintf "%s model=%b obs=%c limit=%s input=%s (%S)" name m dets.[i] lim hex (string_of_bytes raw))
+    | None -> () in
+  cmp "Csv" comma 0; cmp "Tsv" tab 1;
+  let mn = ndjson maxrec tokens true raw l in
+  if mn <> (dets.[2] = '1') then mismatch "ndjson" (Printf.sprintf "model=%b obs=%c limit=%s input=%s (%S)" mn dets.[2] lim hex (string_of_bytes raw));
+  let desc = Printf.sprintf "limit=%s header=%s (%S) kind=%s" lim hex (string_of_bytes raw) kind in
+  let fam = if String.length kind >= 3 then String.sub kind 0 3 else kind in
+  let expected = if fam = "csv" then "text/csv" else if fam = "tsv" then "text/tab-separated-values" else "application/x-ndjson" in
+  let suffix = (match String.index_opt kind '-' with Some i -> String.sub kind (i + 1) (String.length kind - i - 1) | None -> "") in
+  let li = int_of_string lim in
+  let end2 = int_of_string end2s in
+  (* forward: cut anywhere after the second complete line (or examined whole) keeps the type *)
+  if (suffix = "whole" || (suffix = "cut" && li >= end2) || suffix = "comment") && head <> expected then
+    propfail "C13" (Printf.sprintf "well-formed %s table/stream not reported as %s (got %s): %s" fam expected head desc);
+  (* converse *)
+  if suffix = "damaged" && head = expected then
+    propfail "C13" (Printf.sprintf "%s reported although a complete line is damaged: %s" expected desc);
+  if suffix = "one-line" && (head = "text/csv" || head = "text/tab-separated-values" || head = "application/x-ndjson") then
+    propfail "C13" (Printf.sprintf "%s reported for a single line: %s" head desc);
+  (* converse on the examined header itself, quote-free inputs: equal field counts >= 2, >= 2 records *)
+  let judge sepc name = if head = name then (match sv_model sepc raw l with Some false -> propfail "C13" (Printf.sprintf "%s reported but the complete non-comment lines do not all have the same number (>= 2) of fields: %s" name desc) | _ -> ()) in
+  judge comma "text/csv"; judge tab "text/tab-separated-values"
+
 (* c10 <hex hdr> <limit> <mime|ext of the result> <kind> *)
 let json_family_heads = ["application/json|.json"; "application/geo+json|.geojson"; "application/json|.har"; "model/gltf+json|.gltf"]
 let ch_c10 hex lim head kind =
@@ -502,6 +532,7 @@ let () =
        | ["c17"; hex; classes] -> ch_c17 hex classes
        | ["c10"; hex; lim; head; kind] -> ch_c10 hex lim head kind
        | ["c18"; hex; vec; chain; kind] -> ch_c18 hex vec chain kind
+       | ["c13"; hex; lim; dets; head; kind; e2] -> ch_c13 hex lim dets head kind e2
        | ["ext"; h; k; d] -> ch_ext h k d
        | ["extp"; h; x; l; v; ch; bf] -> ch_extp h x l v ch bf
        | ["extl"; h; n; g] -> ch_extl h n g
